@@ -42,7 +42,7 @@ def ho(prop, q=40, t=600, shards_q=4, shards_t=16, flavors=None):
     return dict(engine="hostile", shards=dict(quick=shards_q, thorough=shards_t), args=args)
 
 
-ASYNC_ALL = "tokio-mt,tokio-ct,async-std,thread-per-task"
+ASYNC_ALL = "tokio-mt,tokio-ct,async-std,thread-per-task,seeded"
 
 
 def also_async(stage_list):
@@ -239,8 +239,8 @@ PLAN = {
                 ho("C19", q=24, t=300, flavors=ASYNC_ALL), ls("C19", q=100, t=1500, flavors=ASYNC_ALL),
                 dict(engine="waitrace", shards=dict(quick=2, thorough=8), args=["--quick-n", "80", "--thorough-n", "1500", "--flavors", ASYNC_ALL]),
                 dict(engine="close", shards=dict(quick=2, thorough=8), args=["--quick-n", "120", "--thorough-n", "2500", "--flavors", ASYNC_ALL])],
-        rule="(i) differential: one scripted history run on Cache and on AsyncCache (tokio multi-thread, tokio current-thread, async-std, thread-per-task), compared observation by observation; "
-             "(ii) the hostile, lockstep, termination and close monitors re-run against AsyncCache on the four executors",
+        rule="(i) differential: one scripted history run on Cache and on AsyncCache (tokio multi-thread, tokio current-thread, async-std, thread-per-task, and the harness' own executor that polls the background tasks in a seeded random order), compared observation by observation; "
+             "(ii) the hostile, lockstep, termination and close monitors re-run against AsyncCache on the five executors",
         clauses=["return values, look-ups, remaining TTLs (exact), callback multisets, metrics (gets_kept+gets_dropped as a sum), snapshots, histogram equal step by step",
                  "every async trace satisfies the reference model on its own", "every violation of another property observed on an async flavour counts against C19"],
         minimum=dict(quick=dict(diff_observations_compared=20000, ho_histories=60, ls_histories=300)),
